@@ -1039,6 +1039,35 @@ Theorem C03_pacman_counted_pacman_frame : forall f cf st acts,
 Proof. exact pm_step_counted_pacman_frame. Qed.
 Print Assumptions C03_pacman_counted_pacman_frame.
 
+(* clause 2612 of the component's checker, in full, at the level of the simulation's transitions: for
+   every configuration in which pacman is not listed as a baddie, every state, every action dictionary and
+   either teleport: a step that raised nothing and that pacman started alive ends with
+   step_count = old + 1 if pacman is still active, old if it died.  (Moves, teleports and eating change
+   positions, orientations and other agents' health only: `move_drift_act`, `teleport_act`.) *)
+Theorem C03_pacman_clause_2612 : forall f cf st acts,
+  pac_not_baddie cf ->
+  ps_bad st = false -> ps_bad (pm_step_gen f cf st acts) = false ->
+  pac_active cf (ps_grid st) = true ->
+  ps_count (pm_step_gen f cf st acts)
+    = if pac_active cf (ps_grid (pm_step_gen f cf st acts)) then ps_count st + 1 else ps_count st.
+Proof. exact pm_step_clause_2612. Qed.
+Print Assumptions C03_pacman_clause_2612.
+
+Theorem C03_pacman_counted_active : forall f cf st acts,
+  pac_not_baddie cf ->
+  ps_bad st = false -> ps_bad (pm_step_gen f cf st acts) = false ->
+  ps_count (pm_step_gen f cf st acts) = ps_count st + 1 ->
+  pac_active cf (ps_grid (pm_step_gen f cf st acts)) = pac_active cf (ps_grid st).
+Proof. exact pm_step_counted_active. Qed.
+Print Assumptions C03_pacman_counted_active.
+
+(* moves and teleports never change anybody's `active` flag *)
+Theorem C03_move_teleport_keep_active : forall f s i ca j,
+  match move_drift s i ca with MOk _ s' => act s' j = act s j | _ => True end /\
+  act (tgrid (teleport f s i)) j = act s j.
+Proof. intros f s i ca j. split; [apply move_drift_act | apply teleport_act]. Qed.
+Print Assumptions C03_move_teleport_keep_active.
+
 (* the hypothesis holds of the packaged board's configuration *)
 Example C03_pacman_not_baddie_nonvacuous : pac_not_baddie px_cf.
 Proof.
